@@ -5,8 +5,19 @@ import r_ovf
 import r_state
 import r_fwd
 import r_live
+import r_own
 
 PROPS = {
+    "C08": {
+        "rules": [r_own.rule_own],
+        "floors": {},
+        "explanation": "tbd",
+    },
+    "C15": {
+        "rules": [r_own.rule_leak],
+        "floors": {},
+        "explanation": "tbd",
+    },
     "C09": {
         "rules": [r_live.rule_live, r_live.rule_amt_pub],
         "floors": {},
